@@ -37,6 +37,10 @@ pub const BLOCK_KINDS: &[&str] = &[
     "call_ring",
     "const_edges",
     "register_spaces",
+    "structs",
+    "typedefs_arrays",
+    "samplers",
+    "control_flow",
 ];
 
 /// Block kinds that are not validated at start-up: they probe the edges of constant evaluation and
@@ -427,6 +431,76 @@ pub fn block(kind: &str, rng: &mut Rng, u: usize) -> (String, String) {
                     }
                 }
             }
+        }
+        "structs" => {
+            // several structs with members and methods, nested struct types, used as locals,
+            // parameters and element types of buffers
+            let n = rng.range(2, 4) as usize;
+            for i in 0..n {
+                decl.push_str(&format!("struct St{u}_{i} {{\n"));
+                for (j, v) in distinct(rng, VALUE_NAMES, 2, 4).iter().enumerate() {
+                    let ty = ["int", "float2", "uint", "float4"][j % 4];
+                    decl.push_str(&format!("    {ty} {v};\n"));
+                }
+                if i > 0 {
+                    decl.push_str(&format!("    St{u}_{} inner;\n", i - 1));
+                }
+                decl.push_str(&format!("    int get{i}() {{ return {i}; }}\n"));
+                decl.push_str(&format!("    int twice{i}(int x) {{ return x + get{i}(); }}\n"));
+                decl.push_str("};\n");
+                decl.push_str(&format!("const StructuredBuffer<St{u}_{i}> st_buf{u}_{i};\n"));
+                decl.push_str(&format!(
+                    "int use_st{u}_{i}(St{u}_{i} s) {{ return s.get{i}() + s.twice{i}(2); }}\n"
+                ));
+                body.push_str(&format!(
+                    "{{ St{u}_{i} tmp = st_buf{u}_{i}.Load(0); sink += use_st{u}_{i}(tmp); }}\n"
+                ));
+            }
+        }
+        "typedefs_arrays" => {
+            let n = rng.range(2, 4) as usize;
+            for i in 0..n {
+                let ty = ["int", "uint", "float", "float4"][i % 4];
+                decl.push_str(&format!("typedef {ty} Td{u}_{i};\n"));
+                decl.push_str(&format!("static Td{u}_{i} td_arr{u}_{i}[{}];\n", 2 + i));
+                decl.push_str(&format!("groupshared Td{u}_{i} td_gs{u}_{i}[{}];\n", 4 * (i + 1)));
+                decl.push_str(&format!(
+                    "Td{u}_{i} td_get{u}_{i}(uint k) {{ td_gs{u}_{i}[k] = td_arr{u}_{i}[1]; return td_arr{u}_{i}[0]; }}\n"
+                ));
+                body.push_str(&format!("td_get{u}_{i}(0u);\n"));
+            }
+        }
+        "samplers" => {
+            let n = rng.range(1, 3) as usize;
+            decl.push_str(&format!("const Texture2D<float4> smp_tex{u};\n"));
+            for i in 0..n {
+                let filter = ["MIN_MAG_MIP_LINEAR", "MIN_MAG_MIP_POINT"][i % 2];
+                let addr = ["Clamp", "Wrap"][i % 2];
+                decl.push_str(&format!(
+                    "const SamplerState smp{u}_{i} = StaticSampler\n{{\n    Filter = {filter};\n    AddressU = {addr};\n    AddressV = {addr};\n}};\n"
+                ));
+                body.push_str(&format!(
+                    "sink += (int)smp_tex{u}.SampleLevel(smp{u}_{i}, float2(0.5f, 0.5f), 0.0f).x;\n"
+                ));
+            }
+            decl.push_str(&format!("const SamplerState smp_dyn{u};\n"));
+            body.push_str(&format!(
+                "sink += (int)smp_tex{u}.SampleLevel(smp_dyn{u}, float2(0.0f, 0.0f), 0.0f).y;\n"
+            ));
+        }
+        "control_flow" => {
+            decl.push_str(&format!("int cf{u}(int x) {{\n    int acc = 0;\n"));
+            for k in 0..rng.range(2, 5) {
+                match rng.below(5) {
+                    0 => decl.push_str(&format!("    for (int i{k} = 0; i{k} < x; ++i{k}) {{ acc += i{k}; }}\n")),
+                    1 => decl.push_str(&format!("    while (acc < {k}) {{ acc += 2; }}\n")),
+                    2 => decl.push_str(&format!("    switch (x) {{ case {k}: acc += 1; break; case {}: acc += 2; break; default: break; }}\n", k + 10)),
+                    3 => decl.push_str(&format!("    if (x > {k}) {{ acc -= 1; }} else if (x < -{k}) {{ acc += 1; }} else {{ acc = 0; }}\n")),
+                    _ => decl.push_str(&format!("    do {{ acc += 1; }} while (acc < {k});\n    acc = x > {k} ? acc : -acc;\n")),
+                }
+            }
+            decl.push_str("    return acc;\n}\n");
+            body.push_str(&format!("sink += cf{u}(sink);\n"));
         }
         "wave" => {
             decl.push_str(&format!(
